@@ -3,6 +3,7 @@ package verifharness
 import (
 	"fmt"
 	"math"
+	"os"
 	"sort"
 	"strconv"
 	"strings"
@@ -63,6 +64,12 @@ func h1RunCore(env *Env, c *H1Cfg) *h1State {
 		}
 		st.YAMLPath = p
 		defer removeTemp(p)
+		switch c.FilePathKind {
+		case "dir": // the path opens but cannot be read
+			st.YAMLPath = os.TempDir()
+		case "missing":
+			st.YAMLPath = p + ".does-not-exist"
+		}
 	}
 	env.Sim.GoMain("main", func() { h1Main(env, c, st) })
 	env.Sim.Run()
